@@ -266,7 +266,7 @@ func takeSnapshot(w *world.World, p persistence.LogStatePersistence) snapshot {
 			}
 			continue
 		}
-		s.raw[name] = b
+		s.raw[name] = append([]byte{}, b...) // (a copy: the in-memory store hands out its own slice, and a later in-place change must show as a change)
 	}
 	logs, err := p.Logs()
 	if err != nil {
